@@ -211,7 +211,7 @@ func c12Extra(rng *rand.Rand, kind string) *SessSpec {
 	case "reopen-refused":
 		// every re-open attempt after a transient end is refused: the library gives up with a fatal error after its retries
 		// (fail-stop) or keeps trying; it must neither carry on without the vBucket nor count it as ended for good
-		sp.ReqFail = map[int][2]int{vb: {2, []int{0x24, 0x84}[rng.Intn(2)]}}
+		sp.ReqFail = map[int][2]int{vb: {2, []int{0x24, 0x84, 0x02}[rng.Intn(3)]}} // also KEY_EEXISTS ("the producer says it streams this vBucket")
 		sp.ReqFailFrom = true
 		sp.Steps = []Step{{Op: "barrier"}, {Op: "metrics"}, {Op: "end", VB: vb, St: transientStatus[rng.Intn(4)]}, {Op: "sleep", Ms: 7500}, {Op: "metrics"}, {Op: "waitstop", Ms: 150}}
 	case "retry-vs-rebalance":
